@@ -25,7 +25,9 @@ type RawCase struct {
 
 var (
 	fuzzStatusRe = regexp.MustCompile(`^HTTP/1\.[0-9] (20[0-3])`)
-	fuzzCTRe     = regexp.MustCompile(`(?i)^content-type:[ \t]*([^;, \t\r]*)`)
+	// the declared media type is the type/subtype token pair the value starts with; what follows it (parameters, or
+	// junk a lenient reader skips) is not covered by the statement
+	fuzzCTRe = regexp.MustCompile("(?i)^content-type:[ \\t]*([!#$%&'*+.^_`|~0-9A-Za-z-]*/?[!#$%&'*+.^_`|~0-9A-Za-z-]*)")
 	redirectRe   = regexp.MustCompile(`^HTTP/1\.[0-9] 3`)
 )
 
